@@ -22,11 +22,20 @@ type StressCase struct {
 }
 
 // capacityExceeded: does the program exceed the VM's documented encoding
-// capacity (65 535 constants or literal members, 255 call arguments)?
+// capacity (65 535 constants or literal members, 255 call arguments)? The
+// 16-bit absolute jump targets are part of the same encoding: a program with a
+// lazy construct whose code may reach 65 536 bytes (no instruction takes more than 8
+// bytes per tree node, so fewer than 8 192 nodes can never get there) may be
+// refused at compile time as well; whether it is refused or compiled, what is
+// emitted must still verify (C11) and agree (C03).
 func capacityExceeded(core *m.Expr) bool {
 	consts := 0
 	over := false
+	lazy := false
 	core.Walk(func(e *m.Expr) {
+		if e.K == "call" && (e.Name == "if" || e.Name == "&&" || e.Name == "||" || strings.HasPrefix(e.Name, "lz_")) {
+			lazy = true
+		}
 		switch e.K {
 		case "num", "str", "bool", "time", "var":
 			consts++
@@ -53,7 +62,7 @@ func capacityExceeded(core *m.Expr) bool {
 			consts++
 		}
 	})
-	return over || consts > 65535
+	return over || consts > 65535 || lazy && core.Size()*8 >= 65536
 }
 
 // compareBackends is the differential oracle.
@@ -256,6 +265,11 @@ func eachStress(extraSizes []int) func(yield func(*StressCase) bool) {
 				if n <= 2000 || strings.HasPrefix(k, "wide") {
 					sizes = append(sizes, n)
 				}
+			}
+			if k == "long-arms" {
+				// around the 16-bit jump range: 12 bytes of code per unit of n, the jumps of the
+				// second conditional stop fitting at n = 5457 (compiled from the tree)
+				sizes = append(sizes, 5400, 5450, 5456, 5457, 5458, 5470, 8000)
 			}
 			for _, n := range sizes {
 				for _, sel := range []bool{false, true} {
